@@ -184,7 +184,15 @@ def streams(tier, rng, P, only=None, cases=None):
                 cs.append(dict(req="run " + hx(src), src=src, show="%d PRINT statements" % nprint, kind="bound", n=nprint, key="m%d" % i))
             elif k < 0.75:
                 nerr = rng.choice([0, 1, 29, 30, 31, 32, 60, 120])
-                src = " ".join(rng.choice(BAD_CHARS) for _ in range(nerr)) + " c"
+                bads = [rng.choice(BAD_CHARS) for _ in range(nerr)]
+                if rng.random() < 0.5 and nerr >= 2:
+                    # the same number of offending characters spread over nested blocks (tuplets, Sub, loops): one budget for the whole source
+                    cut1 = rng.randrange(0, nerr); cut2 = rng.randrange(cut1, nerr + 1)
+                    wrap = rng.choice(["{ %s c d }4", "Sub{ %s c }", "[2 %s c ]", "Sub{ {%s c}4 }"])
+                    src = " ".join(bads[:cut1]) + "\n" + (wrap % " ".join(bads[cut1:cut2])) + "\n" + " ".join(bads[cut2:]) + " c"
+                    if "[2" in wrap: nerr = nerr      # the lexer reads the loop body once
+                else:
+                    src = " ".join(bads) + " c"
                 cs.append(dict(req="run " + hx(src), src=src, show="%d offending characters" % nerr, kind="lexbound", n=nerr, key="m%d" % i))
             elif k < 0.9:
                 head = render(valid_lines(rng))
